@@ -343,6 +343,39 @@ PROPS["C05"] = dict(
     note="Bounded; the statement-shape parser in the harness is trusted. The data-level half of C05 needs a real engine and is outside the claim.",
 )
 
+PROPS["C04"] = dict(
+    _my,
+    runs={
+        "quick": [
+            dict(_my, harness="VerifHarness_C04_mysql_n3", reach=["planned"]),
+            dict(_pg, harness="VerifHarness_C04_postgres_n3", reach=["planned"]),
+        ],
+        "thorough": [
+            dict(_my, harness="VerifHarness_C04_mysql_n3", reach=["planned"]),
+            dict(_pg, harness="VerifHarness_C04_postgres_n3", reach=["planned"]),
+            dict(_my, harness="VerifHarness_C04_mysql_create4", reach=["planned"]),
+            dict(_my, harness="VerifHarness_C04_mysql_drop4", reach=["planned"]),
+            dict(_pg, harness="VerifHarness_C04_postgres_create4", reach=["planned"]),
+            dict(_pg, harness="VerifHarness_C04_postgres_drop4", reach=["planned"]),
+        ],
+    },
+    bounds={
+        "quick": "MySQL and PostgreSQL planners: all 2^9 directed foreign-key graphs (self loops included) over 3 tables x every role assignment "
+                 "{created, dropped, kept gaining its keys, kept losing its keys} consistent with the edges x both input orders",
+        "thorough": "same plus all 2^16 graphs over 4 tables for create-all and drop-all",
+    },
+    assumptions=[
+        "the inputs are purely structural (which keys exist, which tables are created/dropped): they are explored exhaustively by path forking, "
+        "the solver has nothing to decide here (stated in DESIGN.md section 2.7)",
+        "reference catalogue in the harness replays Plan.Changes[i].Source in order",
+    ],
+    outside="graphs over 5+ tables; dependencies through views, functions, types; the SQLite planner (no DetachCycles)",
+    claim="For every graph/role combination within the bounds the real PlanChanges (topLevel, DetachCycles, SortChanges, statement builders) "
+          "plans without error; replaying the planned sources in order, every table is created before a key pointing at it is declared, dropped only "
+          "after all keys pointing at it are gone, created/dropped exactly once, and all intended keys end up declared/removed.",
+    note="Exhaustive structural enumeration (coverage.exhaustive) executed on the real SSA by the symbolic engine.",
+)
+
 NOT_APPLICABLE = {
     "C01": "needs a real SQLite engine executing the planned SQL and pragma-based inspection; neither cgo code nor SQLite's DDL "
            "semantics can be encoded by an SSA-level symbolic executor, and a hand-written catalogue model would verify the model, not Atlas "
